@@ -26,6 +26,7 @@ KNOWN = os.path.join(VERIF, "known_findings.json")
 def sc_to_json(sc):
     d = dict(sc)
     d["inds"] = [c.to_json() for c in sc["inds"]]
+    d["late"] = [c.to_json() for c in sc.get("late", [])]
     if "hex" in d:
         h = dict(d["hex"])
         if h.get("lifespan") is not None:
@@ -39,6 +40,7 @@ def sc_to_json(sc):
 def sc_from_json(d):
     sc = dict(d)
     sc["inds"] = [IndCfg.from_json(x) for x in d["inds"]]
+    sc["late"] = [IndCfg.from_json(x) for x in d.get("late", [])]
     if "hex" in sc:
         h = dict(sc["hex"])
         if h.get("lifespan") is not None:
@@ -90,6 +92,16 @@ def props_of(finding, trace, sc):
         return {"C08"}
     if base == "untrimmed":
         return {"C15"}
+    if base in ("purge", "reindex", "recalc"):
+        return {"C14"}
+    if base == "interfere" or base in ("alone", "reorder"):
+        return {"C13"}
+    if base in ("attrs", "sideeffect", "args"):
+        return {"C19"}
+    if base == "read":
+        return {"C20"}
+    if base == "work":
+        return {"C07"}
     if base in ("stage", "def"):
         ps = set()
         if mg:
